@@ -300,7 +300,7 @@ func (s *server) OnWebTransportSession(ctx *types.HttpContext, wt *webtransport.
 		return
 	}
 
-	if len(wth.Sid) == 0 {
+	if wth == nil || len(wth.Sid) == 0 {
 		server_log.Debug("invalid WebTransport handshake")
 		abortUpgrade(ctx, BAD_REQUEST, nil)
 		return
